@@ -235,20 +235,26 @@ theorem error_is_noop (cfg : Cfg) (s : State) (h : ModeInv s) (c : Call)
   · have : s.opened = false := by simpa using ho
     simp [step, this, ret]
 
-/-- the full statement for several processes is false of the code … -/
+/-- the full statement for several processes -/
 def error_is_noop_multi_Statement : Prop :=
   ∀ (s : State), ModeInv s → ∀ c : Call, c ≠ .close ∧ c ≠ .abort →
     (step Cfg.pinnedMulti s c).err ≠ .noerr →
     (step Cfg.pinnedMulti s c).st = s ∧ (step Cfg.pinnedMulti s c).wr = false
 
-/-- … witness: one pending iput, then `ncmpi_put_varn_int_all` with varid NC_GLOBAL on 2 processes:
-    returns NC_EGLOBAL, and the pending iput has been written to the file -/
-theorem error_is_noop_multi_counterexample : ¬ error_is_noop_multi_Statement := by
-  intro h
-  have := h (run Cfg.pinnedMulti (openedFile true true) [.post .iput .fixed false false])
-    (inv_run _ _ _ (inv_opened true true)) (.rw true true .global false false true) (by decide) (by decide)
-  revert this
-  decide
+/-- … holds since the `extract_reqs` repair (/repo commit 12532099).  Before it this statement was refuted
+    (`error_is_noop_multi_counterexample`: one pending iput, then `ncmpi_put_varn_int_all` with varid
+    NC_GLOBAL on 2 processes returned NC_EGLOBAL and had written the pending iput); the same history is
+    still replayed on 2 processes on every run and must now leave the request pending. -/
+theorem error_is_noop_multi : error_is_noop_multi_Statement := by
+  intro s h c hc he
+  have := error_is_noop Cfg.pinnedMulti s h c hc rfl he
+  exact ⟨this.1, this.2.1⟩
+
+/-- the former witness, now a regression example: the failed call leaves the iput pending and writes nothing -/
+example :
+    let s := run Cfg.pinnedMulti (openedFile true true) [.post .iput .fixed false false]
+    (step Cfg.pinnedMulti s (.rw true true .global false false true)).st = s ∧
+    (step Cfg.pinnedMulti s (.rw true true .global false false true)).wr = false := by decide
 
 set_option maxHeartbeats 4000000 in
 /-- on several processes the model still meets the documented table everywhere else -/
@@ -316,7 +322,7 @@ def obligations : List String := [
   "one_mode", "one_mode_dispatcher_counterexample", "driver_asserts_hold",
   "matches_spec", "matches_spec_pinned_counterexample", "matches_spec_pinned_counterexample_indep",
   "matches_spec_pinned_counterexample_ub", "pinned_eq_repaired", "matches_spec_partial",
-  "refines_all_histories", "rejected_is_noop", "error_is_noop", "error_is_noop_multi_counterexample",
+  "refines_all_histories", "rejected_is_noop", "error_is_noop", "error_is_noop_multi",
   "matches_spec_multi", "mode_changes_only_by",
   "spec_mode_changes_only_by"
 ]
